@@ -26,12 +26,15 @@ RULE = ("random Clifford circuits (plus exact rational rotations, incl. near-det
         "the model's table), a classical bit overwritten by a second qubit followed by a reset and re-use of either qubit, several (circuit, parameter values) "
         "pairs in one ExactSampler.run -- the same parametrised circuit object with different values, copies, other circuits in between (independent simulator only); "
         "every parametrised standard gate (plain and through expressions p/2, -p, 2p+c; dynamic circuits) bound by the sampler with values inside and "
-        "outside [0, 2pi): negative, beyond one / two / many turns, exact multiples of 2pi (independent simulator only)")
+        "outside [0, 2pi): negative, beyond one / two / many turns, exact multiples of 2pi (independent simulator only); classical bits laid out other than in one register (several registers, bits outside any register, aliasing registers) with a bit set to 1 before later 0-outcomes / resets / overwrites; one circuit holding different unitary gates of equal name, width and parameters (user-defined blocks and gate classes, open vs closed controls, PauliEvolutionGate of different operators; reference written out in standard gates)")
 ASSUMPTIONS = ["Qiskit Statevector.evolve / probabilities and IEEE rounding are outside the model; the implementation's 1e-16 pruning tolerance is modelled as 0",
                "the concrete Clifford backend of the model (exact Gaussian-rational amplitudes) is validated against the implementation, not proved Lawful / ExSem (the refinement theorem holds for every backend whose states have expectation vectors transformed by transfer matrices)",
                "through ExactSampler: QuasiDistribution keeps integer keys"]
-LEVEL_TEXT = ("11 Lean 4 theorems about the branch-table model, generic in a lawful quantum backend (probabilities always add up to one, measurement "
-              "sets/clears exactly the written bit, resets leave outcomes alone, refusals); floats abstracted (partial)")
+LEVEL_TEXT = ("branch-table model generic in the quantum backend: probabilities add up to one, key bookkeeping, refusals, the returned dictionary; "
+              "T13.1/T13.2: for every backend whose states have expectation vectors (ExSem) each step of the sampler's bookkeeping is the step of the "
+              "Pauli-expectation semantics and every reported value is the semantic probability of its outcome (step_refines, sampler_correct, "
+              "simulate_correct; reset = P0 + X.P1 proved for the standard matrices); the driver's Clifford backend is validated, not proved ExSem; "
+              "floats and the 1e-16 tolerance abstracted (partial)")
 CLIFF1 = ["h", "x", "y", "z", "s", "sdg", "sx", "sxdg", "id"]
 CLIFF2 = ["cx", "cz", "cy", "swap"]
 
@@ -127,6 +130,94 @@ def _deterministic_cases():
                         instrs = [dict(i, qubits=[names[q] for q in i["qubits"]]) for i in seq]
                         n += 1
                         yield ("simulate", {"nq": 2, "ncl": 3, "instrs": instrs, "via": "sampler" if n % 3 == 0 else "func", "always_oracle": True})
+
+
+# classical bits laid out otherwise than in ONE register: an int = a register of that size, "L" = a bit that belongs to no register
+# (QuantumCircuit(qubits, clbits) / add_bits), ["A", [i, ...]] = a further register made of bits that already exist (an alias)
+CL_LAYOUTS = [[2, "L"], ["L", 2], ["L", "L", "L"], [1, "L", 1, "L"], [1, 1, 1], [2, "L", ["A", [0, 2]]], ["L", "L", 2, "L"], [3, ["A", [2, 1]], "L"]]
+
+
+def _layout_ncl(layout):
+    return sum(1 if e == "L" else (e if isinstance(e, int) else 0) for e in layout)
+
+
+def _clbit_layout_cases():
+    """seed-independent: the circuit's classical bits do not form one register -- several registers, bits outside any register (alone, before /
+    after / between registers), a register aliasing existing bits.  Outcomes are indexed by the position of the bit in the circuit.  In every
+    program a bit is set to 1 first and LATER another measurement yields 0 / a reset happens / the bit is overwritten with 0: every other
+    bit must keep its value.  (The model sees bit positions only, so it covers these too.)"""
+    g = lambda nm, *qs: {"name": nm, "qubits": list(qs)}                                # noqa: E731
+    m = lambda q, c: {"name": "measure", "qubits": [q], "clbits": [c]}                  # noqa: E731
+    n = 0
+    for layout in CL_LAYOUTS:
+        ncl = _layout_ncl(layout)
+        progs = []
+        for c in range(ncl):
+            # bit c holds 1, then a certain 0 goes to the next bit
+            progs.append([g("x", 0), m(0, c), m(1, (c + 1) % ncl)])
+        hi, lo = ncl - 1, 0
+        progs.append([g("x", 0), m(0, hi), g("reset", 1), g("h", 1), m(1, lo)])                       # reset after the bit was set
+        progs.append([g("x", 0), m(0, hi), g("x", 0), m(0, hi), g("h", 0), m(0, lo)])                 # 1 overwritten with 0
+        progs.append([g("x", 0), g("x", 1), m(0, lo), m(1, hi), g("reset", 0), m(0, ncl // 2), g("h", 1), m(1, lo)])
+        progs.append([g("h", 0), g("cx", 0, 1), m(0, hi), m(1, (hi + 1) % ncl), g("reset", 0), g("sx", 0), m(0, ncl // 2), g("barrier", 0, 1), m(1, hi)])
+        for instrs in progs:
+            n += 1
+            yield ("simulate", {"nq": 2, "ncl": ncl, "clayout": layout, "instrs": instrs, "via": "sampler" if n % 3 == 0 else "func",
+                                "always_oracle": True})
+
+
+MODEL_GATES = set(CLIFF1) | set(CLIFF2)
+
+
+def _same_name_cases():
+    """seed-independent: ONE circuit holding several DIFFERENT unitary gates that share their name, width and parameter list -- user-defined
+    blocks (QuantumCircuit.to_gate) a user called the same, instances of a user-defined Gate class given by a matrix, standard controlled
+    gates with closed and open controls (ctrl_state), PauliEvolutionGate of different operators for equal times -- on different and on the
+    same qubits, with measurements / resets in between.  Each gate must act as ITS unitary.  The reference circuit is written out with
+    standard gates (the block's content, x - gate - x for open controls, the rotation equal to the evolution)."""
+    g = lambda nm, *qs: {"name": nm, "qubits": list(qs)}                                # noqa: E731
+    m = lambda q, c: {"name": "measure", "qubits": [q], "clbits": [c]}                  # noqa: E731
+    cu = lambda nm, qs, *inner: {"name": "custom", "gname": nm, "qubits": list(qs), "inner": [g(a, *b) for a, b in inner]}   # noqa: E731
+    blk = lambda v, *qs: {"name": "blk", "variant": v, "qubits": list(qs)}              # noqa: E731
+    oc = lambda gate, cs, qs, *ps: {"name": "octrl", "gate": gate, "ctrl_state": cs, "qubits": list(qs), "params": list(ps)}   # noqa: E731
+    pe = lambda pauli, t, *qs: {"name": "pevo", "pauli": pauli, "time": t, "qubits": list(qs)}   # noqa: E731
+    mall = lambda k: [m(q, q) for q in range(k)]                                        # noqa: E731
+    progs = [
+        # user-defined blocks under one name
+        (2, [cu("prep", [0], ("h", [0])), cu("prep", [1], ("x", [0]))] + mall(2)),
+        (2, [cu("prep", [1], ("x", [0])), cu("prep", [0], ("h", [0]))] + mall(2)),
+        (1, [cu("u", [0], ("x", [0])), m(0, 0), cu("u", [0], ("h", [0])), m(0, 1), g("reset", 0), cu("u", [0], ("sx", [0]), ("sx", [0])), m(0, 2)]),
+        (3, [cu("layer", [0, 1], ("h", [0]), ("cx", [0, 1])), m(0, 0), g("reset", 0), g("barrier", 0, 1, 2),
+             cu("layer", [2, 0], ("sx", [1]), ("cz", [0, 1]), ("h", [0])), m(1, 1), m(0, 2), m(2, 3)]),
+        (3, [cu("layer", [0, 1], ("x", [0]), ("cx", [0, 1])), cu("layer", [1, 2], ("cx", [1, 0]), ("h", [1])), cu("layer", [0, 1], ("x", [0]), ("cx", [0, 1]))] + mall(3)),
+        (2, [cu("a", [0], ("h", [0])), cu("a", [0], ("s", [0])), cu("a", [0], ("h", [0])), cu("a", [1], ("y", [0])), cu("a", [0], ("s", [0]))] + mall(2)),
+        # a standard NAME on a user-defined block of another content, next to the standard gate
+        (2, [g("h", 0), cu("h", [1], ("x", [0])), cu("cx", [0, 1], ("cx", [1, 0]))] + mall(2)),
+        (2, [cu("cx", [0, 1], ("h", [0]), ("h", [1]), ("cz", [0, 1])), g("cx", 0, 1), g("h", 1)] + mall(2)),
+        # instances of a user-defined gate class (matrix given by __array__, no parameters)
+        (2, [g("x", 0), blk("cx", 0, 1), blk("swap", 0, 1), g("h", 0), blk("cz", 0, 1), g("h", 0)] + mall(2)),
+        (3, [g("h", 0), blk("cx", 0, 1), m(1, 3), blk("iswap", 1, 2), blk("dcx", 2, 0), g("reset", 1), blk("cx", 0, 1)] + mall(3)),
+        (2, [g("sx", 0), blk("0.8", 0, 1), blk("-0.3", 1, 0), blk("cz", 0, 1), g("sx", 1)] + mall(2)),
+        # standard controlled gates, closed and open controls
+        (2, [oc("cx", 0, [0, 1]), g("cx", 0, 1), m(0, 0), m(1, 1)]),
+        (2, [g("h", 0), g("cx", 0, 1), oc("cx", 0, [0, 1]), m(0, 0), m(1, 1)]),
+        (3, [g("x", 1), oc("ccx", 2, [0, 1, 2]), oc("ccx", 3, [0, 1, 2]), oc("ccx", 0, [1, 2, 0]), oc("ccx", 1, [0, 2, 1])] + mall(3)),
+        (2, [g("h", 0), oc("crx", 0, [0, 1], 1.1), oc("crx", 1, [0, 1], 1.1), oc("cry", 0, [1, 0], 0.7), m(0, 0), g("reset", 0), oc("cry", 1, [1, 0], 0.7), m(0, 1), m(1, 2)]),
+        (2, [g("sx", 0), oc("ch", 1, [0, 1]), oc("ch", 0, [0, 1]), oc("cz", 0, [1, 0]), g("cz", 0, 1), g("sx", 0)] + mall(2)),
+        (3, [g("h", 0), g("h", 1), oc("cswap", 0, [0, 1, 2]), g("x", 1), oc("cswap", 1, [0, 1, 2])] + mall(3)),
+        # PauliEvolutionGate: the operator is not among the parameters (only the time is)
+        (2, [pe("Z", 0.7853981633974483, 0), pe("X", 0.7853981633974483, 1)] + mall(2)),
+        (2, [pe("X", 0.6, 0), pe("Z", 0.6, 0), pe("Y", 0.6, 1), pe("X", 0.6, 1), m(0, 0), m(1, 1), pe("Y", 0.6, 0), m(0, 2)]),
+        (2, [g("h", 0), pe("ZZ", 0.4, 0, 1), pe("XX", 0.4, 0, 1), pe("YY", 0.4, 1, 0), g("h", 1)] + mall(2)),
+    ]
+    for idx, (nq, instrs) in enumerate(progs):
+        flat = _flat(instrs)
+        in_model = all(i["name"] in MODEL_GATES or i["name"] in ("measure", "reset", "barrier") for i in flat)
+        ncl = 1 + max(i["clbits"][0] for i in instrs if i["name"] == "measure")
+        p = {"nq": nq, "ncl": ncl, "instrs": instrs, "via": "sampler" if idx % 2 else "func", "always_oracle": True}
+        if not in_model:
+            p["oracle_only"] = True
+        yield ("simulate", p)
 
 
 def _sweep_cases():
@@ -254,6 +345,8 @@ def _oracle_sweep(payload):
 
 def cases(rng, tier):
     yield from _deterministic_cases()
+    yield from _clbit_layout_cases()
+    yield from _same_name_cases()
     yield from _sweep_cases()
     yield from _param_range_cases()
     N = 250 if tier == "quick" else 4000
@@ -349,9 +442,17 @@ def _circ(payload, key="instrs"):
         regs = [QuantumRegister(sz, f"q{i}") for i, sz in enumerate(payload["qregs"])]
     else:
         regs = [QuantumRegister(payload["nq"], "q")]
-    if payload["ncl"]:
+    if payload["ncl"] and not payload.get("clayout"):
         regs.append(ClassicalRegister(payload["ncl"], "c"))
     qc = QuantumCircuit(*regs)
+    for k, e in enumerate(payload.get("clayout") or ()):
+        from qiskit.circuit import Clbit
+        if e == "L":
+            qc.add_bits([Clbit()])
+        elif isinstance(e, int):
+            qc.add_register(ClassicalRegister(e, f"c{k}"))
+        else:
+            qc.add_register(ClassicalRegister(name=f"c{k}", bits=[qc.clbits[i] for i in e[1]]))
     pv = None
     if payload.get("pvec"):
         from qiskit.circuit import ParameterVector
@@ -360,14 +461,23 @@ def _circ(payload, key="instrs"):
         qs = [qc.qubits[q] for q in ins["qubits"]]
         cs = [qc.clbits[c] for c in ins.get("clbits", [])]
         if ins["name"] == "custom":
-            sub = QuantumCircuit(1, name="prep")
+            sub = QuantumCircuit(len(ins["qubits"]), name="prep")
             for i2 in ins["inner"]:
-                sub.append(canon.mk_op(i2["name"]), [0])
+                sub.append(canon.mk_op(i2["name"]), list(i2["qubits"]))
             op = sub.to_gate()
             if ins.get("gname"):
                 op.name = ins["gname"]
         elif ins["name"] == "std":
             op = _mk_std(ins["gate"], ins.get("params", ()))
+        elif ins["name"] == "blk":
+            op = canon.mk_op("blk", [ins["variant"]])
+        elif ins["name"] == "octrl":
+            from qiskit.circuit.library.standard_gates import get_standard_gate_name_mapping
+            op = get_standard_gate_name_mapping()[ins["gate"]].base_class(*[float(x) for x in ins.get("params", ())], ctrl_state=ins["ctrl_state"])
+        elif ins["name"] == "pevo":
+            from qiskit.circuit.library import PauliEvolutionGate
+            from qiskit.quantum_info import SparsePauliOp
+            op = PauliEvolutionGate(SparsePauliOp(ins["pauli"]), time=float(ins["time"]))
         elif ins["name"] == "pstd":
             # a standard gate whose k-th argument is a * (parameter #j) + b for ins["pexpr"][k] = [a, j, b]: built on the elements of the
             # ParameterVector (bound by the sampler), or -- payload["pvals"] given -- written out with the numbers (the reference circuit)
@@ -403,7 +513,20 @@ def _flat(instrs):
     out = []
     for i in instrs:
         if i["name"] == "custom":
-            out += [{"name": j["name"], "qubits": i["qubits"]} for j in i["inner"]]
+            out += [{"name": j["name"], "qubits": [i["qubits"][q] for q in j["qubits"]]} for j in i["inner"]]
+        elif i["name"] == "blk":
+            # the user-defined gate class of canon.mk_op("blk", ...): its matrix is that of the named standard gate / of rzx(angle)
+            std = i["variant"] in ("cx", "cz", "swap", "iswap", "dcx")
+            out.append({"name": i["variant"], "qubits": i["qubits"]} if i["variant"] in MODEL_GATES else
+                       {"name": "std", "gate": i["variant"] if std else "rzx", "params": [] if std else [float(i["variant"])], "qubits": i["qubits"]})
+        elif i["name"] == "octrl":
+            # open controls written out: x on every control whose required value is 0, the closed-control gate, x again
+            nctrl = {"ccx": 2, "ccz": 2}.get(i["gate"], 1)
+            flips = [{"name": "x", "qubits": [i["qubits"][k]]} for k in range(nctrl) if not (i["ctrl_state"] >> k) & 1]
+            out += flips + [{"name": "std", "gate": i["gate"], "params": i.get("params", []), "qubits": i["qubits"]}] + flips
+        elif i["name"] == "pevo":
+            # exp(-i t P) for a Pauli letter / a doubled letter = the rotation of angle 2t about it
+            out.append({"name": "std", "gate": "r" + i["pauli"].lower(), "params": [2 * float(i["time"])], "qubits": i["qubits"]})
         else:
             out.append(i)
     return out
